@@ -170,20 +170,20 @@ def run(ctx, chk):
                                             % (ev[5], w.off if isinstance(w, Ptr) else w), func=eng)
                             w_end = env.get('write')
                             w_start = dict(notes.get('start_vals', ())).get('write', Lin.const(0))
-                            if isinstance(w_end, Ptr) and isinstance(end, int) and not any(e[0] == 'check' and not e[2] and 'maxChars0' in repr(e[1]) for e in events):
+                            if isinstance(w_end, Ptr) and isinstance(end, int):
                                 d = w_end.off - w_start
                                 # upper bound: replace escape outputs by their bounds
                                 sub = {}
                                 for e in events:
                                     if e[0] == 'escbound':
                                         sub[list(e[1].t)[0]] = e[2]
-                                deltas.setdefault((nb, s2p), {}).setdefault('W', {})[(start, end, _akey(atoms))] = (d.subst(sub), loc or f.loc)
+                                deltas.setdefault((nb, s2p), {}).setdefault('W', {}).setdefault((start, end, _akey(atoms)), []).append((d.subst(sub), loc or f.loc))
                         else:
                             r_end = env.get('(*charsRequired)')
                             r_start = dict(notes.get('start_vals', ())).get('(*charsRequired)')
                             if isinstance(r_end, Lin) and isinstance(end, int):
                                 d = r_end if r_start is None else r_end - r_start
-                                deltas.setdefault((nb, s2p), {}).setdefault('R', {})[(start, end, _akey(atoms))] = (d, loc or f.loc)
+                                deltas.setdefault((nb, s2p), {}).setdefault('R', {}).setdefault((start, end, _akey(atoms)), []).append((d, loc or f.loc))
                         # integer guards: int-typed arithmetic results
                         for ev in events:
                             if ev[0] == 'intop':
@@ -200,15 +200,23 @@ def run(ctx, chk):
         for (nb, s2p), d in sorted(deltas.items()):
             Wd, Rd = d.get('W', {}), d.get('R', {})
             for k in sorted(set(Wd) | set(Rd), key=str):
-                kk = 'estimate:%s/nb=%d/%s' % (bn, nb, k[2])
+                kk = 'estimate:%s/nb=%d/%s->%s/%s' % (bn, nb, k[0], k[1], k[2])
                 if k in Wd and k in Rd:
-                    diff = Wd[k][0] - Rd[k][0]
-                    ok = SymExec.nonpos(_NN, diff)
-                    chk.add('estimate-sufficient', kk, ok, Wd[k][1], '%s region %s->%s [%s]: writes at most %r, measures %r'
-                            % (eng, k[0], k[1], k[2], Wd[k][0], Rd[k][0]), func=eng)
-                elif k in Wd and not SymExec.nonpos(_NN, Wd[k][0]):
-                    chk.bad('estimate-sufficient', kk, Wd[k][1], '%s: region %s->%s [%s] writes up to %r characters but the measuring '
-                            'run has no matching region' % (eng, k[0], k[1], k[2], Wd[k][0]), func=eng)
+                    worst = None
+                    for (dw, lw) in Wd[k]:
+                        for (dr, lr) in Rd[k]:
+                            if not SymExec.nonpos(_NN, dw - dr):
+                                worst = (dw, dr, lw)
+                    if worst:
+                        chk.bad('estimate-sufficient', kk, worst[2], '%s region %s->%s [%s]: the writing branch can emit up to %r characters '
+                                'but the measuring branch adds only %r on a path with the same condition: chars-required may be too small'
+                                % (eng, k[0], k[1], k[2], worst[0], worst[1]), func=eng)
+                    else:
+                        chk.ok('estimate-sufficient', kk, Wd[k][0][1], 'writes at most %r, measures at least as much on %d path(s)'
+                               % (Wd[k][0][0], len(Rd[k])), func=eng)
+                elif k in Wd and any(not SymExec.nonpos(_NN, dw) for (dw, _l) in Wd[k]):
+                    chk.bad('estimate-sufficient', kk, Wd[k][0][1], '%s: region %s->%s [%s] writes up to %r characters but the measuring '
+                            'run has no region with the same condition' % (eng, k[0], k[1], k[2], Wd[k][0][0]), func=eng)
         _int_guards(ctx, chk, f, eng, bn, INTMAX, fac)
         _preconditions(ctx, chk, suf, eng, ai, INTMAX)
         _item_count(ctx, chk, suf)
@@ -225,7 +233,7 @@ _NN = _NNC()
 
 
 def _akey(atoms):
-    return ';'.join(sorted('%s%s' % ('' if t else '!', a) for a, t in atoms if 'maxChars0' not in a and 'charsWritten' not in a))[:200]
+    return ';'.join(sorted('%s%s' % ('' if t else '!', a) for a, t in atoms if not a.endswith('<= 0') and 'charsWritten' not in a))[:200]
 
 
 def _int_guards(ctx, chk, f, eng, bn, INTMAX, fac):
